@@ -228,6 +228,36 @@ func c34Generate(rng *rand.Rand) *c34History {
 	case "shuffle":
 		rng.Shuffle(len(del), func(i, j int) { del[i], del[j] = del[j], del[i] })
 	}
+	// a late duplicate of the start notification of an epoch whose complete was already
+	// delivered (a re-published or delayed copy): must be de-duplicated, never acted upon
+	if rng.Intn(3) == 0 {
+		var cands []int // positions of first starts whose epoch's complete is delivered too
+		for i, n := range del {
+			if n.Kind != "rstart" || n.Dup {
+				continue
+			}
+			for _, m := range del {
+				if m.Kind == "rcomplete" && m.Epoch == n.Epoch {
+					cands = append(cands, i)
+					break
+				}
+			}
+		}
+		if len(cands) > 0 {
+			src := cands[rng.Intn(len(cands))]
+			after := src
+			for j, m := range del {
+				if m.Kind == "rcomplete" && m.Epoch == del[src].Epoch && j > after {
+					after = j
+				}
+			}
+			d := del[src]
+			d.Dup = true
+			at := after + 1 + rng.Intn(len(del)-after)
+			del = append(del[:at], append([]c34Note{d}, del[at:]...)...)
+			h.Perturb += "+latestart"
+		}
+	}
 	// a timeout can only elapse for a departure whose notification was already tracked
 	// (the timer is armed by the tracking): move early timeouts behind the first left(n)
 	for changed := true; changed; {
@@ -279,10 +309,12 @@ type c34Out struct {
 }
 
 type c34Obs struct {
-	Lefts, Joins   int
-	ByTimeout      int
-	ByCoveringDone int
-	Nontrivial     bool
+	Lefts, Joins         int
+	ByTimeout            int
+	ByCoveringDone       int
+	DupStartsOfCompleted int
+	EmittedAtDupStart    int
+	Nontrivial           bool
 }
 
 // c34Run feeds one history to a fresh *cluster and judges the (inputs, outputs) trace.
@@ -304,6 +336,7 @@ func c34Run(t *testing.T, r *verifrt.Run, h *c34History) c34Obs {
 	}
 
 	completeDelivered := map[uint64]bool{} // epochs whose rebalance-complete was delivered so far
+	startDelivered := map[uint64]bool{}    // epochs whose rebalance-start was delivered so far
 	leftDelivered := map[string][]int64{}  // node -> UIDs of delivered left notifications, in order
 	joinDelivered := map[string]bool{}
 	// at-most-once automata
@@ -312,6 +345,11 @@ func c34Run(t *testing.T, r *verifrt.Run, h *c34History) c34Obs {
 	joinOpen := map[string]bool{}
 
 	for step, n := range h.Delivered {
+		// a start notification of an epoch that was already started and completed before
+		dupStartOfCompleted := n.Kind == "rstart" && startDelivered[n.Epoch] && completeDelivered[n.Epoch]
+		if dupStartOfCompleted {
+			obs.DupStartsOfCompleted++
+		}
 		switch n.Kind {
 		case "timeout":
 			cl.emitOverdueNodeLeft(n.Node)
@@ -328,6 +366,8 @@ func c34Run(t *testing.T, r *verifrt.Run, h *c34History) c34Obs {
 		switch n.Kind {
 		case "rcomplete":
 			completeDelivered[n.Epoch] = true
+		case "rstart":
+			startDelivered[n.Epoch] = true
 		case "left":
 			leftDelivered[n.Node] = append(leftDelivered[n.Node], n.UID)
 			joinOpen[n.Node] = false // "until the opposite event": a departure notification re-arms NodeJoined
@@ -341,6 +381,9 @@ func c34Run(t *testing.T, r *verifrt.Run, h *c34History) c34Obs {
 			case ev := <-evch:
 				switch p := ev.Payload.(type) {
 				case *NodeLeftEvent:
+					if dupStartOfCompleted {
+						obs.EmittedAtDupStart++
+					}
 					o := c34Out{Step: step, Type: "NodeLeft", Node: p.Address, UID: p.Timestamp.UnixMilli()}
 					outs = append(outs, o)
 					obs.Lefts++
@@ -395,8 +438,15 @@ func c34Run(t *testing.T, r *verifrt.Run, h *c34History) c34Obs {
 					if stale {
 						class = "only-an-older-departures-epoch-complete"
 					}
-					viol("NodeLeft-before-covering-rebalance-complete:at="+n.Kind+":"+class, map[string]any{"step": step, "node": p.Address, "departure_fact": depFact, "input": n.String(), "complete_delivered": completeDelivered})
+					at := n.Kind
+					if dupStartOfCompleted {
+						at = "rstart-duplicate-of-completed-epoch"
+					}
+					viol("NodeLeft-before-covering-rebalance-complete:at="+at+":"+class, map[string]any{"step": step, "node": p.Address, "departure_fact": depFact, "input": n.String(), "complete_delivered": completeDelivered})
 				case *NodeJoinedEvent:
+					if dupStartOfCompleted {
+						obs.EmittedAtDupStart++
+					}
 					o := c34Out{Step: step, Type: "NodeJoined", Node: p.Address, UID: p.Timestamp.UnixMilli()}
 					outs = append(outs, o)
 					obs.Joins++
@@ -428,7 +478,7 @@ func c34Run(t *testing.T, r *verifrt.Run, h *c34History) c34Obs {
 func TestVerif_C34(t *testing.T) {
 	r := verifrt.Start(t, "C34")
 	defer r.Finish()
-	r.Rule("case = a true timeline of 1-5 membership facts over 1-3 peers (+ hostile facts naming the local node, + epochs of other reasons), 1-5 rebalance epochs with unordered ids, each possibly never completing or completing late, delivered as real JSON notifications to handleClusterEvent of a fresh never-started *cluster with duplicates / swaps / full shuffle, overdue timeout as a logical input (emitOverdueNodeLeft) only after the departure was tracked; Events() drained after every input. Oracle: at-most-once automata per node (NodeLeft re-armed by a join notification or NodeJoined output, NodeJoined re-armed by a left notification or NodeLeft output), no event naming the local node, no event for a node without notification, and every NodeLeft(n) emitted either during the timeout input of n or after delivery of a rebalance-complete of an epoch started at or after that departure in the true timeline (the k-th NodeLeft(n) is credited to the k-th true departure of n, the most lenient reading under reordering). non-trivial = >=1 event emitted and >=4 inputs; distinct by delivered history text")
+	r.Rule("case = a true timeline of 1-5 membership facts over 1-3 peers (+ hostile facts naming the local node, + epochs of other reasons), 1-5 rebalance epochs with unordered ids, each possibly never completing or completing late, delivered as real JSON notifications to handleClusterEvent of a fresh never-started *cluster with duplicates / swaps / full shuffle and, in a third of the histories, a late duplicate start of an already completed epoch, overdue timeout as a logical input (emitOverdueNodeLeft) only after the departure was tracked; Events() drained after every input. Oracle: at-most-once automata per node (NodeLeft re-armed by a join notification or NodeJoined output, NodeJoined re-armed by a left notification or NodeLeft output), no event naming the local node, no event for a node without notification, and every NodeLeft(n) emitted either during the timeout input of n or after delivery of a rebalance-complete of an epoch started at or after that departure in the true timeline (the k-th NodeLeft(n) is credited to the k-th true departure of n, the most lenient reading under reordering). non-trivial = >=1 event emitted and >=4 inputs; distinct by delivered history text")
 	r.Assume("an epoch covers a departure iff it was started, in the true timeline, by that departure or by a later fact (its routing table no longer contains the node); completion of any such epoch, whatever its reason, counts as settled")
 	rng := r.Rand(1)
 	n := r.N(20000, 400000)
@@ -442,6 +492,8 @@ func TestVerif_C34(t *testing.T) {
 		r.Count("nodeleft_by_timeout", int64(obs.ByTimeout))
 		r.Count("nodeleft_after_covering_complete", int64(obs.ByCoveringDone))
 		r.Count("perturbation_"+h.Perturb, 1)
+		r.Count("duplicate_starts_of_completed_epochs", int64(obs.DupStartsOfCompleted))
+		r.Count("events_emitted_at_duplicate_start_of_completed_epoch", int64(obs.EmittedAtDupStart))
 		r.Max("history_len_max", int64(len(h.Delivered)))
 		if i < 4 {
 			r.Sample(map[string]any{"history": h.text(), "perturbation": h.Perturb})
